@@ -82,6 +82,11 @@ CHECKS = {
             "Every operand pair a type-checked query can produce from the alphabet (null, Int64/Uint64 boundaries, floats incl. -0.0, strings, booleans, lists up to length 2 with null and mixed-sign elements) for all 20 operators, at the function layer and through 144 compiled queries; results must equal the reference definitions; panics are violations.",
             "Ordering of lists containing null elements is undefined by the documentation and skipped; regex semantics reuse the regex crate.",
             "DESIGN.md §4 C07"),
+    "C15": ("exploration",
+            "bounded-exhaustive program-space enumeration; each case is executed directly and through the tracing adapter, the trace is serialized / deserialized (RON) and replayed by the repository's TraceReaderAdapter with no data source",
+            "For every (query, dataset, arguments) case of the enumerated space (k<=2 quick / k<=3 thorough, plus two-edge structures with tag / count deviations): rows through AdapterTap + tap_results equal the direct rows as a sequence, the trace records one ProduceQueryResult per row, the trace is equal after a RON round trip (thorough: also pretty RON), and assert_interpreted_results(deserialized trace, rows, complete) reproduces exactly those rows.",
+            "RON is the repository's trace format; JSON cannot hold a trace (maps keyed by Eid / FieldRef) and is not tried. The replay oracle is the repository's own TraceReaderAdapter.",
+            "DESIGN.md §4 C15"),
     "C16": ("exploration",
             "exhaustive enumeration of values / types over boundary alphabets and of every distinct IR of the enumerated query space, each through the real serde impls (RON, JSON, untagged JSON) and Display/parse, compared for equality",
             "(a) every distinct compiled query (k<=2 quick / k<=3 thorough, ~66k / millions of IRs): IRQuery via RON and JSON, IndexedQuery via RON, and re-indexing the round-tripped IRQuery gives the same IndexedQuery; (b) 248 values (integer / float boundaries, escapes, non-BMP text, lists to nesting 3): RON, pretty RON and JSON bit-identical, untagged JSON equal; (c) every type over 3 bases x depth<=5/7 x all nullability masks + depths up to the limit (30): parse, Display, Display->parse, RON, JSON.",
